@@ -78,3 +78,16 @@ Definition agree (c : case) : bool :=
   end.
 Definition ident (c : case) : nat := let '(i, _, _, _, _, _) := c in i.
 Definition failing := failing_ids agree ident.
+
+(* STATIC correspondence (corr:C15-static): the harness extracts an aliasing skeleton (a pcmd) from the SOURCE of every
+   anchored function (Python ast: which statements assign into / call in-place methods on names, how names are bound:
+   views, copies, list copies, wrappers, fresh results; data-dependent `if`s are choices, callee bodies are inlined).
+   The proved analysis is evaluated on it: the verdict must be the expected one (accepted with the documented in-place
+   flags; rejected for the negative controls) and must coincide with the verdict on the hand-written skeleton. *)
+Definition scase := (nat * list bool * bool * option (skel * list bool) * pcmd)%type.
+Definition agree_static (c : scase) : bool :=
+  let '(_, flags, expected, k, p) := c in
+  Bool.eqb (psafe_with flags p) expected &&
+  match k with None => true | Some (s, kflags) => Bool.eqb (safe_with kflags (skeleton s)) expected end.
+Definition ident_static (c : scase) : nat := let '(i, _, _, _, _) := c in i.
+Definition failing_static := failing_ids agree_static ident_static.
